@@ -389,6 +389,42 @@ fn renderings(c: &mut Ctx) {
                     Err(()) => c.fail("to_rfc3339 panicked", &val_args(&v)),
                 }
             }
+            2 if i % 4 == 0 => {
+                // the `%+` item: `DateTime::format("%+")` is `to_rfc3339()`; on a `NaiveDateTime` (no offset) it is
+                // a formatting error, never a text
+                use std::fmt::Write as _;
+                let r = guard(|| {
+                    let mut s = String::new();
+                    write!(s, "{}", v.dt.format("%+")).map(|_| s)
+                });
+                c.op(&format!("r3.plus {}", val_args(&v)), &match &r {
+                    Ok(Ok(s)) => hex(s.as_bytes()),
+                    Ok(Err(_)) => "err".into(),
+                    Err(()) => "panic".into(),
+                });
+                match (&r, guard(|| v.dt.to_rfc3339())) {
+                    (Ok(Ok(a)), Ok(b)) => {
+                        if *a != b {
+                            c.fail("format(\"%+\") differs from to_rfc3339()", &format!("{} {:?} vs {:?}", val_args(&v), a, b));
+                        }
+                        check_rendering(c, &v, 4, false, a);
+                    }
+                    _ => c.fail("format(\"%+\") of a DateTime<FixedOffset> failed", &val_args(&v)),
+                }
+                let rn = guard(|| {
+                    let mut s = String::new();
+                    write!(s, "{}", v.utc.format("%+")).map(|_| s)
+                });
+                c.op(&format!("r3.plusn {} {} {}", yof(&v.utc.date()), v.utc.time().num_seconds_from_midnight(), v.utc.time().nanosecond()), &match &rn {
+                    Ok(Ok(s)) => hex(s.as_bytes()),
+                    Ok(Err(_)) => "err".into(),
+                    Err(()) => "panic".into(),
+                });
+                if !matches!(rn, Ok(Err(_))) {
+                    c.fail("format(\"%+\") of a NaiveDateTime is not a formatting error", &format!("{:?} -> {:?}", v.utc, rn));
+                }
+                c.count("render:%+");
+            }
             1 => {
                 // write, then parse, both sides
                 let r = guard(|| DateTime::parse_from_rfc3339(&v.dt.to_rfc3339_opts(SFS[sf], z)));
